@@ -183,6 +183,10 @@ struct TxRec {
     dao_in: HashMap<usize, (u64, u64)>,
     /// `+1 shannon` sibling of a NervosDAO phase-2 transaction (same inputs; must be rejected)
     sibling: Option<TransactionView>,
+    /// malformed variants of a NervosDAO phase-2 transaction (same input; witness / header deps off):
+    /// (kind, the model's `rfee` op line for it, the transaction). A block carrying one is rejected by
+    /// `DaoHeaderVerifier` with the `DaoError` class the model answers for that line.
+    malformed: Vec<(String, String, TransactionView)>,
 }
 
 struct BlkRec {
@@ -574,7 +578,7 @@ impl Scn {
         }
         let in_cells = inputs.iter().map(|(op, _)| self.cells.get(op).unwrap().clone()).collect();
         self.short.insert(tx.proposal_short_id(), label);
-        self.txs.insert(label, TxRec { tx, in_caps: inputs.iter().map(|x| x.1).collect(), in_cells, dao_in: HashMap::new(), sibling: None });
+        self.txs.insert(label, TxRec { tx, in_caps: inputs.iter().map(|x| x.1).collect(), in_cells, dao_in: HashMap::new(), sibling: None, malformed: vec![] });
     }
 
     fn exec_ub(&mut self, ts: &[&str]) {
@@ -618,6 +622,7 @@ impl Scn {
         let base = TransactionBuilder::default().cell_dep(always_success_dep()).cell_dep(dao_dep);
         let mut dao_in = HashMap::new();
         let mut sibling = None;
+        let mut malformed: Vec<(String, String, TransactionView)> = vec![];
         let (tx, in_ops): (TransactionView, Vec<OutPoint>) = match ts[2] {
             "dep" => {
                 assert!(ts.len() == 6, "malformed dtx dep line");
@@ -700,6 +705,35 @@ impl Scn {
                 };
                 dao_in.insert(0usize, (dl, wl));
                 sibling = Some(mk(max + 1));
+                // malformed variants: ONE aspect of the witness / the header deps off. Header ids of the
+                // model's raw transaction: 1 = deposit header, 2 = withdrawing header.
+                {
+                    let out_cap = max - fee;
+                    let it = |bytes: Vec<u8>| packed::WitnessArgs::new_builder().input_type(Some(ckb_types::bytes::Bytes::from(bytes)).pack()).build().as_bytes();
+                    let hdrs = format!("1.{}.{},2.{}.{}", dh.number(), dao_tuple(&dh.dao()).0, wh.number(), dao_tuple(&wh.dao()).0);
+                    let rin = format!("{}:11:8.{}:2.{}.1:0", cell_str(&wcell, wdata), dh.number(), wh.number());
+                    let rout = format!("{}:{}:n:{}", out_cap, lock.args().raw_data().len(), salt_data.len());
+                    let variants: Vec<(&str, ckb_types::bytes::Bytes, String, Vec<Byte32>, &str)> = vec![
+                        ("input-type-7-bytes", it(vec![0u8; 7]), "7.0".into(), vec![dh.hash(), wh.hash()], "1,2"),
+                        ("input-type-9-bytes", it(vec![0u8; 9]), "9.0".into(), vec![dh.hash(), wh.hash()], "1,2"),
+                        ("witness-not-witnessargs", ckb_types::bytes::Bytes::from(vec![1u8, 2, 3]), "m".into(), vec![dh.hash(), wh.hash()], "1,2"),
+                        ("witness-without-input-type", packed::WitnessArgs::new_builder().build().as_bytes(), "e".into(), vec![dh.hash(), wh.hash()], "1,2"),
+                        ("index-beyond-header-deps", it(2u64.to_le_bytes().to_vec()), "8.2".into(), vec![dh.hash(), wh.hash()], "1,2"),
+                        ("index-at-withdrawing-header", it(1u64.to_le_bytes().to_vec()), "8.1".into(), vec![dh.hash(), wh.hash()], "1,2"),
+                        ("withdrawing-header-not-a-dep", it(0u64.to_le_bytes().to_vec()), "8.0".into(), vec![dh.hash()], "1"),
+                    ];
+                    for (kind, wbytes, wstr, deps, dstr) in variants {
+                        let tx = base
+                            .clone()
+                            .header_deps(deps)
+                            .input(CellInput::new(wop.clone(), since))
+                            .witness(wbytes.pack())
+                            .output(CellOutput::new_builder().capacity(Capacity::shannons(out_cap)).lock(lock.clone()).build())
+                            .output_data(salt_data.clone())
+                            .build();
+                        malformed.push((kind.to_string(), format!("rfee {} {}|{}|{}|{}", hdrs, rin, rout, wstr, dstr), tx));
+                    }
+                }
                 ctx.out.count("dao-withdrawals-built-from-the-models-maximum");
                 (mk(max - fee), vec![wop])
             }
@@ -710,7 +744,7 @@ impl Scn {
         }
         let in_cells: Vec<(CellOutput, u64)> = in_ops.iter().map(|op| self.cells.get(op).expect("malformed: input cell does not exist").clone()).collect();
         self.short.insert(tx.proposal_short_id(), label);
-        self.txs.insert(label, TxRec { tx, in_caps: in_cells.iter().map(|(o, _)| cap_of(o)).collect(), in_cells, dao_in, sibling });
+        self.txs.insert(label, TxRec { tx, in_caps: in_cells.iter().map(|(o, _)| cap_of(o)).collect(), in_cells, dao_in, sibling, malformed });
     }
 
     fn tx_str(&self, label: u64) -> String {
@@ -1144,6 +1178,12 @@ impl Scn {
             if let Some(sib) = &t.sibling {
                 proposals.push(sib.proposal_short_id());
             }
+            // (a variant that differs from the withdrawal in its witness only has the same hash / short id)
+            for (_, _, m) in &t.malformed {
+                if !proposals.contains(&m.proposal_short_id()) {
+                    proposals.push(m.proposal_short_id());
+                }
+            }
         }
 
         // ---- implementation side on the node's own store (tip = parent)
@@ -1408,6 +1448,33 @@ impl Scn {
                     self.dead = true;
                 }
                 Err(e) => ctx.out.count(&format!("variant-rejected:dao-withdraw-one-shannon-above-maximum:{}", if e.contains("Script") || e.contains("script") { "script" } else { "other" })),
+            }
+        }
+        // NervosDAO: the same block with a withdrawal replaced by a malformed variant of it: rejected by
+        // DaoHeaderVerifier (dao_field -> transaction_maximum_withdraw) with the model's DaoError class
+        for (k, l) in tx_labels.iter().enumerate() {
+            for (kind, line, mtx) in self.txs[l].malformed.clone() {
+                if self.dead {
+                    break;
+                }
+                let mut body = body_txs.clone();
+                body[k] = mtx;
+                let r = self.node().process(&mk_block(&cellbase, &m_dao, &body));
+                let class = match &r {
+                    Ok(_) => "ok".to_string(),
+                    Err(e) if e.contains("InvalidDaoFormat") => "err-format".into(),
+                    Err(e) if e.contains("InvalidOutPoint") => "err-outpoint".into(),
+                    Err(e) if e.contains("InvalidHeader") => "err-header".into(),
+                    Err(e) if e.contains("Overflow") => "err-overflow".into(),
+                    Err(_) => "err-other".into(),
+                };
+                self.say(ctx, &line, Some(class.clone()));
+                if r.is_ok() {
+                    ctx.out.oracle_fail(&format!("variant-accepted:dao-withdraw-malformed:{}", kind), &format!("block {}: the node accepted a malformed NervosDAO withdrawal (tx {}, {})", number, l, kind));
+                    self.dead = true;
+                } else {
+                    ctx.out.count(&format!("variant-rejected:dao-withdraw-malformed:{}:{}", kind, class));
+                }
             }
         }
         if self.dead {
